@@ -3,7 +3,7 @@
 //! plug-in lists; all answers are word-size independent tokens (integers as [-]hex through raw
 //! words, strings and byte strings as `x<hex>`).  Serialization cases answer with the encoded
 //! bytes, the value decoded again, and a canonical-layout flag read through the verif hooks.
-use dashu_base::{BitTest, DivRem, DivRemEuclid, EstimatedLog2, ExtendedGcd, Gcd, SquareRoot};
+use dashu_base::{BitTest, DivRem, DivRemAssign, DivRemEuclid, EstimatedLog2, ExtendedGcd, Gcd, SquareRoot};
 use dashu_int::fast_div::ConstDivisor;
 use dashu_int::verif_hooks::{mul_kernel, repr_layout_ibig, repr_layout_ubig, MUL_PARAMS};
 use hlib::*;
@@ -164,6 +164,33 @@ fn run(op: &str, a: &[&str]) -> String {
             let y = ring.reduce(ibig(a[2]));
             format!("ok {}", hu(&(x * y).residue()))
         }
+        "modsqr" => {
+            let ring = ConstDivisor::new(ubig(a[0]));
+            let x = ring.reduce(ibig(a[1]));
+            let y = x.clone() * x.clone();
+            let z = x.sqr();
+            assert!(y.residue() == z.residue(), "sqr differs from x * x");
+            format!("ok {}", hu(&z.residue()))
+        }
+        // cdivrem <a> <m>: division by a prepared ConstDivisor in every form (value, reference, assign, / and %)
+        "cdivrem" => {
+            let ring = ConstDivisor::new(ubig(a[1]));
+            let x = ibig(a[0]);
+            let (q, r) = x.clone().div_rem(&ring);
+            let (q2, r2) = (&x).div_rem(&ring);
+            let mut t = x.clone();
+            let r3 = t.div_rem_assign(&ring);
+            let (q4, r4) = (x.clone() / &ring, x.clone() % &ring);
+            let (q5, r5) = (&x / &ring, &x % &ring);
+            assert!(q == q2 && r == r2 && q == t && r == r3 && q == q4 && r == r4 && q == q5 && r == r5, "ConstDivisor forms differ");
+            // the magnitudes too (UBig forms)
+            let m = x.clone().into_parts().1;
+            let (uq, ur) = m.clone().div_rem(&ring);
+            let mut ut = m.clone();
+            let ur2 = ut.div_rem_assign(&ring);
+            assert!(uq == ut && ur == ur2, "UBig ConstDivisor forms differ");
+            format!("ok {} {} {} {}", hi(&q), hi(&r), hu(&uq), hu(&ur))
+        }
         // text in a radix, both directions
         "tostr" => {
             let r = u32::from_str_radix(a[0], 16).unwrap();
@@ -243,6 +270,36 @@ fn run(op: &str, a: &[&str]) -> String {
                 _ => ctx.powi(&x, ibig(a[5])),
             };
             format!("ok {}", hrounded(&r))
+        }),
+        // fx <sub> <base> <mode> <precision> <sig1> <exp1> [<sig2> <exp2>]: Context::mul / add / sub / sqrt with exponents anywhere
+        // in isize (signed hex down to -8000000000000000).  The answer carries xr=1 when the exponents of the two factors of a
+        // product do not add up within isize (the true result is not representable: open finding
+        // float_exponent_range_unchecked, builds with and without overflow checks legitimately differ there); the operation
+        // itself runs under catch_unwind so that the flag is reported by every build.
+        "fx" => with_float!(a[1], a[2], |R, B| {
+            fn iszx(s: &str) -> isize {
+                let v = match s.strip_prefix('-') {
+                    Some(b) => -(i128::from_str_radix(b, 16).expect("exponent")),
+                    None => i128::from_str_radix(s, 16).expect("exponent"),
+                };
+                isize::try_from(v).expect("exponent within isize")
+            }
+            let ctx = Context::<R>::new(usz(a[3]));
+            let x = Repr::<B>::new(ibig(a[4]), iszx(a[5]));
+            let y = if a.len() >= 8 { Repr::<B>::new(ibig(a[6]), iszx(a[7])) } else { Repr::<B>::zero() };
+            let xr = a[0] == "mul" && isize::try_from(x.exponent() as i128 + y.exponent() as i128).is_err();
+            let sub = a[0].to_string();
+            let res = std::panic::catch_unwind(std::panic::AssertUnwindSafe(|| {
+                let r = match sub.as_str() {
+                    "mul" => ctx.mul(&x, &y),
+                    "add" => ctx.add(&x, &y),
+                    "sub" => ctx.sub(&x, &y),
+                    "sqrt" => ctx.sqrt(&x),
+                    other => panic!("unknown fx op {}", other),
+                };
+                hrounded(&r)
+            })).unwrap_or_else(|_| "panic".to_string());
+            format!("ok xr={} {}", b01(xr), res)
         }),
         // text of a float: Display, and the value parsed again
         "ftostr" => with_float!(a[0], a[1], |R, B| {
